@@ -86,6 +86,26 @@ def method_term_args(prog, cq, t):
     return out
 
 
+def list_builder(t):
+    """(element term, iterable term, loop id) of a list built element by element,
+    whether written as a comprehension, as list(<generator>), or as a loop that
+    appends to an empty list; None for anything else (or with a filter)."""
+    if t[0] == 'call' and t[1] == 'list' and len(t[2]) == 1 and not t[3]:
+        t = t[2][0]
+    if t[0] == 'comp' and t[1] in ('list', 'gen') and len(t[3]) == 1 and not t[3][0][2]:
+        target, iterable, _ = t[3][0]
+        lid = target[2] if target[0] == 'elem' else None
+        if lid is None:
+            ids = {x[2] for x in subterms(t[2]) if x[0] == 'elem' and len(x) > 2}
+            lid = sorted(ids, key=str)[0] if len(ids) == 1 else None
+        return t[2], iterable, lid
+    if t[0] == 'loop' and len(t) >= 6 and t[3] == ('list', ()) and t[4][0] == 'mut' and \
+            t[4][1] == ('phi', t[1], t[2]) and t[4][2] == 'append' and \
+            len(t[4][3]) == 1 and not t[4][4]:
+        return t[4][3][0], t[5], t[2]
+    return None
+
+
 def call_arg(prog, rec, name, default=None):
     return call_args(prog, rec).get(name, default)
 
